@@ -89,6 +89,7 @@ type histRun struct {
 	gen  int // generation of the refresh token currently valid at the provider for this browser's session
 	hid  int
 	step int
+	presented map[string]bool // refresh-token values the provider has answered in this history
 }
 
 func runHist(c *ctx) {
@@ -390,7 +391,11 @@ func (h *histRun) opSession(op string) {
 	if emptyOK {
 		plan = "broken"
 	}
+	// a refresh answer that carries a new access token but NO refresh token (RFC 6749 §6 makes it optional): the session then simply cannot refresh again;
+	// in particular the token that was just presented must not be kept and presented a second time
+	noNewRT := plan == "ok" && !emptyOK && r.chance(1, 8)
 	h.s.idp.mu.Lock()
+	h.s.idp.omitNewRefresh = noNewRT
 	h.s.idp.tokenDuration = time.Duration(expiresIn) * time.Second
 	h.s.idp.gate = func(kind string, form url.Values) *idpFault {
 		if kind != "token:refresh_token" {
@@ -513,8 +518,18 @@ func (h *histRun) opSession(op string) {
 		}
 	}
 	contacted, granted := 0, 0
+	dup := false // a refresh-token value the provider has already REDEEMED (answered with new tokens) is presented again
+	if h.presented == nil {
+		h.presented = map[string]bool{}
+	}
 	for _, cl := range calls {
 		if cl.Grant == "refresh_token" {
+			if h.presented[cl.RefreshToken] {
+				dup = true
+			}
+			if cl.Outcome == "ok" { // the provider processed the grant: this value is spent (a value it merely refused, or a 5xx, is not counted)
+				h.presented[cl.RefreshToken] = true
+			}
 			contacted++
 			if cl.Outcome == "ok" {
 				granted++
@@ -586,7 +601,7 @@ func (h *histRun) opSession(op string) {
 	kv := []any{"hid", h.hid, "i", h.step, "mode", hc.modeNum(), "cfwd", hc.forwardAuth, "inact", hc.inactivity, "maxlife", hc.maxLifetime, "acr", hx(hc.acr),
 		"idtok", hc.idTok, "autologin", hc.autoLogin,
 		"op", op, "now", now, "ck", pre.ck, "plan", plan, "secs", expiresIn,
-		"newat", hx(fmt.Sprintf("at%d", h.genNext(pre))), "newrt", hx(fmt.Sprintf("rt%d", h.genNext(pre))),
+		"newat", hx(fmt.Sprintf("at%d", h.genNext(pre))), "newrt", hx(map[bool]string{true: "", false: fmt.Sprintf("rt%d", h.genNext(pre))}[noNewRT]), "dup", dup,
 		"lag", int64(h.s.lag), "ignored", ignored, "nav", nav, "cauth", clientAuth != "", "cid", clientID != "", "hop", hop, "sidmatch", sidMatch}
 	kv = append(kv, h.stFields("", pre)...)
 	kv = append(kv, "status", resp.Status, "fwd", len(ups) > 0, "upauth", upAuth, "nauth", nAuthVals, "upid", upID, "contacted", contacted, "granted", granted,
